@@ -664,10 +664,34 @@ func checkProducerClose(w *World, r *Report, pfx string) {
 		r.Unresolved("anchor", "heap loop", "not found")
 		return
 	}
+	// the arm that (through its helpers) closes the unordered iterator
 	var iterCmd int64 = -1
+	unit := w.unit(loop)
+	armFns := func(k int64) map[*ssa.Function]bool {
+		out := map[*ssa.Function]bool{}
+		for _, b := range loop.Blocks {
+			if !armContains(loop, arms, k, arms[k], b) {
+				continue
+			}
+			for _, in := range b.Instrs {
+				if c, ok := in.(*ssa.Call); ok {
+					if sc := c.Call.StaticCallee(); sc != nil && unit[sc] {
+						for f := range w.unit(sc) {
+							out[f] = true
+						}
+					}
+				}
+			}
+		}
+		return out
+	}
 	for k, ab := range arms {
-		for _, op := range w.Comm().byFn[loop] {
-			if op.Kind == "close" && op.Class.has("iterData.iter") && armContains(loop, arms, k, ab, op.Instr.Block()) {
+		fns := armFns(k)
+		for _, op := range w.Comm().Ops {
+			if op.Kind != "close" || !op.Class.has("iterData.iter") {
+				continue
+			}
+			if (op.Fn == loop && armContains(loop, arms, k, ab, op.Instr.Block())) || fns[op.Fn] {
 				iterCmd = k
 			}
 		}
@@ -685,18 +709,29 @@ func checkProducerClose(w *World, r *Report, pfx string) {
 	}
 	bad := ""
 	var wit []string
-	nP, over := w.enumPaths(loop, pathOpts{Start: arms[iterCmd], StopAt: func(b *ssa.BasicBlock) bool { return outer != nil && b == outer.Header }}, func(p *Path) {
+	nP, over := w.enumPaths(loop, pathOpts{Start: arms[iterCmd], InlineDepth: 3, Inline: w.helperInline(loop), StopAt: func(b *ssa.BasicBlock) bool { return outer != nil && b == outer.Header }}, func(p *Path) {
 		if bad != "" || p.Exit == "panic" {
 			return
 		}
 		cIter, cPop := 0, 0
+		dropped := false
 		for _, ev := range p.Events {
-			if o := w.Comm().byIn[ev.In]; o != nil && o.Kind == "close" {
+			o := w.Comm().byIn[ev.In]
+			if o == nil {
+				continue
+			}
+			if o.Kind == "close" {
 				if o.Class.has("iterData.iter") {
 					cIter++
 				}
 				if o.Class.has("iterData.iterPop") {
 					cPop++
+				}
+			}
+			if o.Kind == "select" {
+				k := p.armTakenIn(ev.In.(*ssa.Select), ev.F)
+				if k >= 0 && k < len(o.States) && o.States[k].Dir == types.RecvOnly && o.States[k].Class.has("iterData.drop") {
+					dropped = true
 				}
 			}
 		}
@@ -710,10 +745,10 @@ func checkProducerClose(w *World, r *Report, pfx string) {
 			wit = p.describe()
 			return
 		}
-		if cPop == 0 {
+		if cPop == 0 && !dropped {
 			// allowed only when the path knows iterPop == nil
 			if !p.hasCmp(-1, token.EQL, loadOf("mpb.iterData", "iterPop"), isNilVal) {
-				bad = "the ordered iterator is left open on a path that does not carry iterPop == nil"
+				bad = "the ordered iterator is left open on a path on which the consumer did not drop the cycle and that does not carry iterPop == nil: flush would range over it forever"
 				wit = p.describe()
 			}
 		}
@@ -722,7 +757,7 @@ func checkProducerClose(w *World, r *Report, pfx string) {
 		r.Undecided(pfx+".L-PRODCLOSE", "heap loop iterate arm", w.pos(loop.Pos()), "path cap")
 	} else {
 		r.Check(bad == "" && nP > 0, pfx+".L-PRODCLOSE", "heap loop iterate arm", w.instrPos(arms[iterCmd].Instrs[0]),
-			fmt.Sprintf("%d paths: iter closed once; iterPop closed once or known nil", nP), bad, wit...)
+			fmt.Sprintf("%d paths: iter closed once; iterPop closed once, or the consumer dropped, or known nil", nP), bad, wit...)
 	}
 	// the nil store to iterPop happens only on the drop arm of a select
 	for _, b := range loop.Blocks {
@@ -1230,7 +1265,7 @@ func checkBarExit(w *World, r *Report, pfx string) {
 	}
 	rule := pfx + ".L-BAREXIT"
 	bad := ""
-	n, over := w.enumPaths(loop, pathOpts{InlineDepth: 2, Start: arm}, func(p *Path) {
+	n, over := w.enumPaths(loop, pathOpts{InlineDepth: 3, Inline: w.helperInline(loop), Start: arm}, func(p *Path) {
 		if bad != "" {
 			return
 		}
